@@ -197,6 +197,8 @@ def correspond(ctx, corr):
     route_hasseb(ctx, corr, ids, picks)
     route_serial(ctx, corr, ids, picks)
     route_serial_delivery(ctx, corr, ids, picks, found)
+    route_serial_late_in_prefix(ctx, corr, ids)
+    route_daliserver_persistent(ctx, corr, ids, picks, allcmds)
     route_atx_threads(ctx, corr, ids, picks, found)
     corr.exhaustive["hasseb: every status code x (every byte for the protocol's codes 1-3, boundary bytes otherwise)"] = True
     corr.exhaustive["tridonic: every report type x (every status byte for types 0x72/0x77, boundary bytes otherwise)"] = True
@@ -431,6 +433,77 @@ class FakeSocket:
 
     def close(self):
         pass
+
+
+class FakeDaliserver:
+    """a daliserver on a persistent connection: every 4-byte request frame is put on the bus and answered with its
+    own 4-byte reply, each reply arriving as a separate segment (a `recv` returns at most the segment at the head of
+    the stream, as a TCP socket does when the peer answers frame by frame)."""
+
+    def __init__(self):
+        self.script = []        # reply for the next request frames, in order
+        self.arrived = []       # segments waiting in the socket buffer
+        self.sent = []
+
+    def send(self, m):
+        m = bytes(m)
+        self.sent.append(m)
+        for k in range(0, len(m) - len(m) % 4, 4):
+            self.arrived.append(self.script.pop(0) if self.script else bytes([2, 0, 0, 0]))
+        return len(m)
+
+    sendall = send
+
+    def recv(self, n):
+        if not self.arrived:
+            return b""
+        seg = self.arrived[0]
+        if len(seg) <= n:
+            self.arrived.pop(0)
+            return seg
+        self.arrived[0] = seg[n:]
+        return seg[:n]
+
+    def close(self):
+        pass
+
+
+def route_daliserver_persistent(ctx, corr, ids, picks, allcmds):
+    """several commands over ONE connection (multiple_frames_per_connection=True): each send() must come back with
+    the reply to its own (last) transmission, whatever was sent before on the same connection."""
+    from dali.driver import daliserver as dsv
+    import socket as _socket
+    rng = ctx.rng
+    pool = [c for c in allcmds if len(c.frame) == 16]
+    twice = [c for c in pool if c.sendtwice]
+    queries = [c for c in pool if c.response is not None]
+    n = 0
+    for _ in range(400 if ctx.thorough else 120):
+        k = rng.randrange(2, 6)
+        cmds = [rng.choice(twice) if rng.random() < 0.4 else rng.choice(queries if rng.random() < 0.7 else pool)
+                for _ in range(k)]
+        buses = [bus_of(rng, c.response) for c in cmds]
+        fake = FakeDaliserver()
+        for c, bus in zip(cmds, buses):
+            rep = bytes(int(x) for x in ask(["enc daliserver %d 0 %s 9" % (c.sendtwice, bus)])[0].split()[1:])
+            fake.script += [rep, rep] if c.sendtwice else [rep]
+        dsv.socket = types.SimpleNamespace(create_connection=lambda target, s=fake: s)
+        history = []
+        try:
+            with dsv.DaliServer(multiple_frames_per_connection=True) as srv:
+                for i, (c, bus) in enumerate(zip(cmds, buses)):
+                    try:
+                        r = "ok " + canon_answer(srv.send(c), ids)
+                    except BaseException as e:  # noqa
+                        r = "err " + type(e).__name__
+                    history.append("send %d: %s%s, bus %s -> %s" % (i, c, " (twice)" if c.sendtwice else "", bus, r))
+                    check_table(corr, "daliserver", c, bus, r, ids,
+                                history={"routing": list(history), "connection": "persistent", "command": str(c), "bus": bus})
+        finally:
+            dsv.socket = _socket
+        n += 1
+    corr.count("traces", n)
+    corr.count("daliserver_persistent", n)
 
 
 def suite_daliserver(ctx, corr, ids, picks, allcmds):
@@ -927,6 +1000,70 @@ def route_serial(ctx, corr, ids, picks):
             traces += 1
     corr.count("traces", traces)
     corr.count("serial_routing", traces)
+
+
+def route_serial_late_in_prefix(ctx, corr, ids):
+    """LUBA / SCI: the answer to caller A's query arrives after A gave up, WHILE caller B's EnableDeviceType frame
+    is on its way (before that frame's confirmation).  B's command needs that device type; the flush of stale
+    answers belongs directly before B's own command, so the late byte must never come back as B's answer."""
+    from dali.gear import general as gg, led, colour, emergency
+    from dali.address import GearBroadcast, GearShort, GearGroup
+    A_pool = [gg.QueryActualLevel(GearShort(1)), gg.QueryStatus(GearBroadcast()), gg.QueryVersionNumber(GearGroup(3))]
+    B_pool = [led.QueryGearType(GearShort(2)), led.QueryDimmingCurve(GearShort(2)),
+              colour.QueryColourStatus(GearShort(5)), emergency.QueryBatteryCharge(GearShort(7)),
+              led.QueryFeatures(GearBroadcast())]
+    traces = 0
+
+    async def scenario(loop, kind, A, B, busB, late_byte, when):
+        ss = await sim.SerialSim(kind).start()
+        d = ss.d
+        ss.auto_confirm(0.017)
+        history = ["caller A sends %s; the gear's answer is delayed" % A.frame]
+        rA = await d.send(A)                       # silence within the window: A gives up
+        history.append("caller A gave up: %s" % canon_answer(rA, ids))
+        ss.tr.written.clear()
+        t = asyncio.ensure_future(d.send(B))
+        await sim.settle(3)
+        n0 = len(ss.tr.written)
+        history.append("caller B sends %s (device type %d): %d frame(s) written so far" % (B.frame, B.devicetype, n0))
+        await asyncio.sleep(when)                  # the prefix frame is not confirmed before 17 ms
+        ss.rx([late_byte])
+        history.append("A's late answer %d arrives %d ms into B's EnableDeviceType frame" % (late_byte, round(when * 1000)))
+        for _ in range(8):
+            n = len(ss.tr.written)
+            await asyncio.sleep(0.0171)
+            await sim.settle(3)
+            if len(ss.tr.written) == n:
+                break
+        w = ask(["enc %s %d 0 %s 0" % (kind, B.sendtwice, busB)])[0].split()[1]
+        if w != "T":
+            await asyncio.sleep(0.005)
+            ss.rx([int(w)])
+            history.append("B's own answer %d, 5 ms after the confirmation of its command" % int(w))
+        try:
+            r = "ok " + canon_answer(await t, ids)
+        except BaseException as e:  # noqa
+            r = "err " + type(e).__name__
+        return r, history, len(ss.tr.written)
+
+    rng = ctx.rng
+    n = 60 if ctx.thorough else 16
+    for kind in ("luba", "sci"):
+        for _ in range(n):
+            A, B = rng.choice(A_pool), rng.choice(B_pool)
+            busB = rng.choice(["s", "s", "v%d" % rng.randrange(256)])
+            late_byte = rng.randrange(256)
+            when = rng.choice([0.002, 0.008, 0.015])
+            r, history, nw = sim.run(scenario, kind, A, B, busB, late_byte, when)
+            if nw < 2:
+                # the driver sent no separate prefix frame: nothing to place the late answer into
+                corr.bump("late_in_prefix:no-prefix-frame")
+                continue
+            check_table(corr, kind, B, busB, r, ids,
+                        history={"routing": history, "command": str(B), "bus": busB, "late answer of A": late_byte})
+            traces += 1
+    corr.count("traces", traces)
+    corr.count("serial_late_in_prefix", traces)
 
 
 DELIVERY = ["separate", "one-chunk", "back-to-back", "straddled"]
